@@ -93,6 +93,13 @@ def run(rep):
     progs = corpus(rep)
     for i, (nm, src) in enumerate(progs):
         cases.append({"id": "t%d:%s" % (i, nm), "kind": "trace", "src": src})
+    cases.append({"id": "retprobe", "kind": "ret_probe"})
+    cand = sorted(legit | {n for n in hv[0]["names"] if not n.startswith("_")})
+    from checks import c03_driver
+    for recv in sorted(c03_driver.RECV):
+        if recv in ("null", "undefined"):
+            continue
+        cases.append({"id": "cg:" + recv, "kind": "call_grid", "recv": recv, "names": cand})
     rnd.shuffle(cases)
     results = engine.run_cases(rep.pid, cases, driver="checks.c03_driver:driver", timeout=3000)
     rep.spaces.append({"space": "receiver kind x access form x harvested internal name (paired with a fresh name)",
@@ -104,6 +111,8 @@ def run(rep):
             recs.append({k: r[k] for k in ("id", "kind", "a", "b", "hostcalls_a", "hostcalls_b", "calls_expected")})
         elif r["kind"] == "trace":
             recs.append({"id": r["id"], "kind": "trace", "seen": r["seen"]})
+            if r["id"].startswith("callgrid:") and r.get("o") in ("host", "hang"):
+                pass        # a host exception inside the grid is C04's subject; the kinds seen so far are still judged
         else:
             recs.append({"id": r["id"], "kind": "ret", "v": r["v"]})
     verdicts, st, tr, _ = tlc.judge(rep.pid, "C03", recs, JUDGE_CFG)
